@@ -131,11 +131,12 @@ CLAIMED = {
             "FITPACK/Polynomial float evaluation trusted to 1e-12 (cond-aware); WD polynomial bounds measured.",
             "DESIGN §6 C09"),
     "C20": ("Lean 4 proof (moment helpers extracted from the source = ∫x^(-a), ∫x·x^(-a) for every exponent incl. 1 and 2; continuity "
-            "constants; Σ piece probabilities = 1; inverse-CDF sampler stays inside its piece for every slope incl. 1) + correspondence "
-            "of helpers, constants, normalisation and evaluation",
+            "constants; Σ piece probabilities = 1; inverse-CDF sampler stays inside its piece for every slope incl. 1; density positive; "
+            "integral(): pieces visited = those meeting the range, each adding the exact clipped moments) + correspondence "
+            "of helpers, constants, normalisation, evaluation and integral()",
             "Theorem C20_partial is stated on Generated.kroupa_mom0/mom1/getmass (the source's expressions, special-case literals "
-            "included). integral() over several pieces and sampling are checked against Gauss–Legendre on the real class (partial).",
-            "Piece-selection loop of integral() not proved; np.random trusted.",
+            "included) and on the hand model of the constants, eval and integral(), tied by correspondence incl. error branches.",
+            "np.random and numpy float evaluation trusted; sampling checked on the real class.",
             "DESIGN §6 C20"),
     "C16": ("Lean 4 proof over a store of argument objects whose per-function write sites are *generated* from the source by an alias "
             "analysis on every run: kernel-decided 'every write site belongs to a documented in-place routine' ⇒ any call history "
